@@ -693,3 +693,27 @@ func dedupStrings(xs []string) []string {
 func (c *Ctx) hostKey(f *ssa.Function) string {
 	return funcKey(c.hostRootOf(f))
 }
+
+// hostKeyIn walks the same chain of unique callers as hostRootOf and returns
+// the key of the first function on it (f included) that the table knows.
+func (c *Ctx) hostKeyIn(f *ssa.Function, has func(key string) bool) (string, bool) {
+	f = topFunc(f)
+	for d := 0; d < 5; d++ {
+		if k := funcKey(f); has(k) {
+			return k, true
+		}
+		if f.Object() == nil || f.Object().Exported() {
+			return "", false
+		}
+		sites, vals := c.allCallersOf(f)
+		if len(sites) != 1 || len(vals) != 0 {
+			return "", false
+		}
+		switch sites[0].Instr.(type) {
+		case *ssa.Go, *ssa.Defer:
+			return "", false
+		}
+		f = topFunc(sites[0].Fn)
+	}
+	return "", false
+}
